@@ -232,7 +232,7 @@ def fixed_cases(term):
 
 
 # ------------------------------------------------------------------------------------------
-def run_impl(cases):
+def run_impl(cases, confirm=True):
     """8 probe processes side by side (a script that hangs costs its 5 s time limit)"""
     from concurrent.futures import ThreadPoolExecutor
     lines = ['%d %d %d %s' % (i, NB, NU, ' '.join(str(x) for x in flat(ops))) for i, (_, ops) in enumerate(cases)]
@@ -255,8 +255,8 @@ def run_impl(cases):
                 except ValueError:
                     pass
     # a script that hit the probe's time limit is run once more on its own (a starved machine must not look like a hang)
-    if len(lines) > 1:
-        for i in [i for i, v in res.items() if len(v) >= 4 and v[-4:-2] == [9, 6]][:40]:
+    if len(lines) > 1 and confirm:
+        for i in [i for i, v in res.items() if len(v) >= 4 and v[-4:-2] == [9, 6]][:8]:
             r2 = sh([bin_path('p_c15')], input=(lines[i] + '\n').encode(), timeout=120)[1].split()
             if len(r2) > 4 and r2[0].isdigit():
                 try:
@@ -380,9 +380,9 @@ def run(ctx, only=None):
 
             def still_fails(cands):
                 cs = [('s', c) for c in cands]
-                rc2, r2, _ = run_impl(cs)
+                rc2, r2, _ = run_impl(cs, confirm=False)
                 return [r2.get(j) is not None and r2.get(j) != expected(NB, NU, strip_env(c)) for j, (_, c) in enumerate(cs)]
-            small = shrink(ops, still_fails) if only is None else ops
+            small = shrink(ops, still_fails, budget=6) if (only is None and n_viol <= 2) else ops
             rc3, r3, _ = run_impl([('s', small)])
             im_s, ex_s = r3.get(0, im), expected(NB, NU, strip_env(small))
             if im_s == ex_s:
